@@ -483,7 +483,7 @@ func Run(r *ev.Run, tier string) (evals, nontrivial int64) {
 	h := c07.NewHost()
 	yBase := map[string]string{"commit#1": "h1", "ack#1": "h1", "commit#2": "h1", "unrelated": "h2"}
 	settings := []setting{{12, 1}, {11, 1}, {12, 2}, {11, 0}}
-	heights := []uint64{10, 11, 12, 9}
+	heights := []uint64{10, 11, 12, 9, 13} // 13: a consensus state is stored there although the client's head is below (a client rolled back by governance, or a reorganisation onto a shorter branch)
 	distinct := map[string]bool{}
 	storages := xStorages(tier)
 	for wi, xs := range storages {
@@ -507,8 +507,8 @@ func Run(r *ev.Run, tier string) (evals, nontrivial int64) {
 				xs11["commit#1"] = "h2"
 			}
 			w11 := makeWorld(xs11, true, wc.withY, yBase)
-			worlds := map[uint64]*stateWorld{10: w10, 11: w11}
-			roots := map[uint64]common.Hash{10: w10.root, 11: w11.root}
+			worlds := map[uint64]*stateWorld{10: w10, 11: w11, 13: w10}
+			roots := map[uint64]common.Hash{10: w10.root, 11: w11.root, 13: w10.root}
 			for _, v := range verifiers {
 				for _, set := range settings {
 					if v.name == "bsc" && set.Delay == 0 {
